@@ -347,6 +347,19 @@ var c19Shapes = []struct {
 	}},
 	{"deep", func(c *c19ctx) *ref.V { return c.value(4) }},
 	{"seqofemptymaps", func(c *c19ctx) *ref.V { return ref.SeqV(ref.MapV(), ref.MapV()) }},
+	// keys that the XML encoder reads as attributes / content, holding values an attribute cannot hold
+	{"xmlattrseq", func(c *c19ctx) *ref.V {
+		return ref.MapV(ref.KV{K: "r", V: ref.MapV(ref.KV{K: "+@a", V: c.flatSeq(1, c.scalar)}, ref.KV{K: "b", V: c.scalar()})})
+	}},
+	{"xmlattrmap", func(c *c19ctx) *ref.V {
+		return ref.MapV(ref.KV{K: "r", V: ref.MapV(ref.KV{K: "c", V: c.scalar()}, ref.KV{K: "+@a", V: c.flatMap(1, c.scalar)})})
+	}},
+	{"xmlattrscalar", func(c *c19ctx) *ref.V {
+		return ref.MapV(ref.KV{K: "r", V: ref.MapV(ref.KV{K: "+@id", V: c.scalar()}, ref.KV{K: "+content", V: c.str()})})
+	}},
+	{"xmlattrdeep", func(c *c19ctx) *ref.V {
+		return ref.MapV(ref.KV{K: "r", V: ref.MapV(ref.KV{K: "k", V: ref.MapV(ref.KV{K: "+@a", V: c.flatSeq(1, c.scalar)}, ref.KV{K: "t", V: c.str()})})})
+	}},
 	{"seqmapsdifferentkeys", func(c *c19ctx) *ref.V {
 		return ref.SeqV(ref.MapV(ref.KV{K: "a", V: c.scalar()}), ref.MapV(ref.KV{K: "b", V: c.scalar()}, ref.KV{K: "a", V: c.scalar()}))
 	}},
